@@ -28,7 +28,7 @@ func rulesC03(c *Ctx) {
 		"R3.4 verdict: canDelete's decision table; the counter primitives are ++ / guarded -- / > 0 under the counter lock; the DeleteXXX gate consults checkFn(Delete, candidate of the same key)",
 		"R3.5 nobody else calls the counter primitives or stores to the counter maps")
 	c.NotDec = append(c.NotDec, "counter values on concrete histories (the induction over histories is in DESIGN.md)", "partial flushes that leave cross-instance counters for entries that still exist elsewhere (outside the property's premise)")
-	ribFamily(c, famSel{delGate: true, keyAgree: true})
+	ribFamily(c, famSel{delGate: true, keyAgree: true, replacedOrig: true})
 	ruleMutationSites(c)
 	ruleInstallRefs(c)
 	ruleHandleReferencesTable(c)
